@@ -115,6 +115,24 @@ class VariableProcessorConfig:
         self.max_string_length = max_string_length
 
 
+class FrameParent(ParentNode):
+    """
+    The parent of the values a frame (or a watch) names directly.
+
+    This is a module level type: a class defined inside the collecting function is only released by the garbage
+    collector, and would keep everything it closes over - the frame and the variables of the application - alive
+    until then.
+    """
+
+    def __init__(self, var_ids: list):
+        """Create a new parent that collects the ids of its children in the given list."""
+        self.var_ids = var_ids
+
+    def add_child(self, child):
+        """Add a child to this parent."""
+        self.var_ids.append(child)
+
+
 class VariableSetProcessor(Collector):
     """Handle the processing of variables."""
 
@@ -149,12 +167,7 @@ class VariableSetProcessor(Collector):
         # else this is an unknown value so process breadth first
         var_ids = []
 
-        class FrameParent(ParentNode):
-
-            def add_child(self, child):
-                var_ids.append(child)
-
-        root_parent = FrameParent()
+        root_parent = FrameParent(var_ids)
 
         initial_nodes = [Node(NodeValue(name, value), parent=root_parent)]
         breadth_first_search(Node(None, initial_nodes, root_parent), self.search_function)
